@@ -30,7 +30,7 @@ pub fn check_level_seq(o: &mut CaseOut, who: &str, seq: &[usize], lv: &BTreeMap<
     o.check(ls.windows(2).all(|p| p[0] <= p[1]), &format!("{who}:not-nearest-first"), || format!("{seq:?} with hop distances {ls:?}"));
 }
 
-fn check_bfs<D: Order + OutNeighbors>(d: &D, m: &Model, src: &[usize], o: &mut CaseOut) {
+fn check_bfs<D: Order + OutNeighbors + Clone>(d: &D, m: &Model, src: &[usize], o: &mut CaseOut) {
     let n = m.n();
     let lv = m.levels(src);
     let cap = 4 * n + 4;
@@ -42,6 +42,15 @@ fn check_bfs<D: Order + OutNeighbors>(d: &D, m: &Model, src: &[usize], o: &mut C
         }
     }
     check_level_seq(o, "Bfs", &seq, &lv);
+    {
+        let fresh = Bfs::new(d, src.iter().copied());
+        let via_clone: Vec<usize> = fresh.clone().take(cap).collect();
+        o.eq("Bfs:clone-of-a-fresh-iterator", &via_clone, &seq);
+        let mut c = Bfs::new(d, std::iter::empty());
+        c.clone_from(&fresh);
+        let via_clone_from: Vec<usize> = c.take(cap).collect();
+        o.eq("Bfs:clone_from-of-a-fresh-iterator", &via_clone_from, &seq);
+    }
     let items: Vec<(usize, usize)> = BfsDist::new(d, src.iter().copied()).take(cap).collect();
     let vs: Vec<usize> = items.iter().map(|x| x.0).collect();
     check_level_seq(o, "BfsDist", &vs, &lv);
